@@ -208,4 +208,92 @@ Section ClosedForms.
         field. repeat split; lra.
     Qed.
   End Derivs.
+
+  (* ---------------------------------------------------------------- definite integrals (FTC) *)
+  Lemma above_on_segment b z0 z1 x : b < nz (Rmax z0 z1) -> Rmin z0 z1 <= x <= Rmax z0 z1 -> b < nz x.
+  Proof. intros H [_ Hx]. pose proof (nz_monotone x (Rmax z0 z1) Hx). lra. Qed.
+
+  Lemma cont_inv_sqrt_ga b x (g : R -> R) : 0 < b -> b < nz x ->
+    ex_derive g x -> continuous (fun y => g y / sqrt (ga b y)) x.
+  Proof.
+    intros Hb Hn Hg. apply (ex_derive_continuous (K:=R_AbsRing) (V:=R_NormedModule) (fun y => g y / sqrt (ga b y)) x).
+    auto_derive. split; [exact Hg|]. split; [eexists; apply (ga_derive b x)|].
+    split; [apply ga_pos; assumption|]. split; [|exact I].
+    apply Rgt_not_eq, sqrt_lt_R0, ga_pos; assumption.
+  Qed.
+
+  Lemma dist_definite b z0 z1 : 0 < b -> b < nz (Rmax z0 z1) ->
+    is_RInt (fun y => b / sqrt (ga b y)) z0 z1
+            (b / sqrt (al b) * L1 b z1 - b / sqrt (al b) * L1 b z0).
+  Proof.
+    intros Hb Hn.
+    apply (is_RInt_derive (fun y => b / sqrt (al b) * L1 b y) (fun y => b / sqrt (ga b y))).
+    - intros x Hx. apply dist_cf_derive; [assumption | eapply above_on_segment; eassumption].
+    - intros x Hx. apply (cont_inv_sqrt_ga b x (fun _ => b)); [assumption | eapply above_on_segment; eassumption|].
+      auto_derive. exact I.
+  Qed.
+
+  Lemma plen_definite b z0 z1 : 0 < b -> b < nz (Rmax z0 z1) ->
+    is_RInt (fun y => nz y / sqrt (ga b y)) z0 z1
+            ((n0 / sqrt (al b) * L1 b z1 + L2 b z1) - (n0 / sqrt (al b) * L1 b z0 + L2 b z0)).
+  Proof.
+    intros Hb Hn.
+    apply (is_RInt_derive (fun y => n0 / sqrt (al b) * L1 b y + L2 b y) (fun y => nz y / sqrt (ga b y))).
+    - intros x Hx. apply plen_cf_derive; [assumption | eapply above_on_segment; eassumption].
+    - intros x Hx. apply (cont_inv_sqrt_ga b x nz); [assumption | eapply above_on_segment; eassumption|].
+      eexists; apply nz_derive.
+  Qed.
+
+  Lemma tof_definite c b z0 z1 : c <> 0 -> 0 < b -> b < nz (Rmax z0 z1) ->
+    is_RInt (fun y => nz y ^ 2 / (c * sqrt (ga b y))) z0 z1
+            ((sqrt (ga b z1) / a + n0 * L2 b z1 + n0 ^ 2 / sqrt (al b) * L1 b z1) / c
+             - (sqrt (ga b z0) / a + n0 * L2 b z0 + n0 ^ 2 / sqrt (al b) * L1 b z0) / c).
+  Proof.
+    intros Hc Hb Hn.
+    apply (is_RInt_derive (fun y => (sqrt (ga b y) / a + n0 * L2 b y + n0 ^ 2 / sqrt (al b) * L1 b y) / c)
+                          (fun y => nz y ^ 2 / (c * sqrt (ga b y)))).
+    - intros x Hx. apply tof_cf_derive; [assumption | eapply above_on_segment; eassumption | assumption].
+    - intros x Hx.
+      assert (Hnx : b < nz x) by (eapply above_on_segment; eassumption).
+      apply continuous_ext with (fun y => (nz y ^ 2 / c) / sqrt (ga b y)).
+      + intros t. change (@eq R (nz t ^ 2 / c / sqrt (ga b t)) (nz t ^ 2 / (c * sqrt (ga b t)))).
+        unfold Rdiv. rewrite Rinv_mult. ring.
+      + apply (cont_inv_sqrt_ga b x (fun y => nz y ^ 2 / c)); [assumption..|].
+        auto_derive. eexists; apply nz_derive.
+  Qed.
+
+  (* ---------------------------------------------------------------- the beta = 0 (vertical) forms *)
+  Lemma tof_vertical_derive c z : c <> 0 ->
+    is_derive (fun y => ((nz y - n0) / a + n0 * y) / c) z (nz z / c).
+  Proof.
+    intros Hc. auto_derive.
+    - eexists; apply nz_derive.
+    - derive_is (nz_derive z). field. split; lra.
+  Qed.
+
+  (* ---------------------------------------------------------------- the deep (uniform n0) forms *)
+  Lemma dist_deep_derive b z : is_derive (fun y => b * y / sqrt (al b)) z (b / sqrt (n0 ^ 2 - b ^ 2)).
+  Proof.
+    unfold al. auto_derive; [exact I |].
+    match goal with |- context [sqrt ?e] => replace e with (n0 ^ 2 - b ^ 2) by ring end.
+    unfold Rdiv; ring.
+  Qed.
+
+  Lemma plen_deep_derive b z : is_derive (fun y => n0 * y / sqrt (al b)) z (n0 / sqrt (n0 ^ 2 - b ^ 2)).
+  Proof.
+    unfold al. auto_derive; [exact I |].
+    match goal with |- context [sqrt ?e] => replace e with (n0 ^ 2 - b ^ 2) by ring end.
+    unfold Rdiv; ring.
+  Qed.
+
+  Lemma tof_deep_derive c b z : c <> 0 -> b < n0 -> - n0 < b ->
+    is_derive (fun y => n0 * (nz y + n0 * (a * y - 1)) / (a * sqrt (al b) * c)) z
+              (n0 * nz z / (c * sqrt (n0 ^ 2 - b ^ 2))).
+  Proof.
+    intros Hc Hb1 Hb2. assert (0 < al b) by (unfold al; nra).
+    assert (0 < sqrt (al b)) by (apply sqrt_lt_R0; assumption).
+    auto_derive.
+    - eexists; apply nz_derive.
+    - derive_is (nz_derive z). fold (al b). field. repeat split; lra.
+  Qed.
 End ClosedForms.
